@@ -104,4 +104,229 @@ theorem rnI_add_small {h c : Int} (hh : RepI h) (hc : 2 ^ 55 * |c| ≤ |h|) : rn
     rw [abs_eq_zero.1 this]; simp
   · exact rnI_add_small_pos hh hp (by rwa [abs_of_pos hp] at hc)
 
+/-! ## 3. `renorm3` as written drops a negligible third word -/
+
+/-- **`renorm3 q1 q2 q3` with `|q2| ≤ |q1|/2` and `|q3| ≤ 2^-57 |q1|`.**  The crate calls `fast_two_sum c u.hi` with the
+SMALL word first; for a negligible `c = q3` this returns `(u.hi, 0)`: `s = RN(c + u.hi) = u.hi`, `z = RN(s - c) = u.hi`,
+`lo = u.hi - z = 0`.  Hence the result is the normalised pair of `q1 + q2` (the third quotient word is dropped). -/
+theorem renorm3_drop {q1 q2 q3 : F64} (f1 : q1.is_finite = true) (f2 : q2.is_finite = true)
+    (f3 : q3.is_finite = true) (w1 : q1.WF) (w2 : q2.WF)
+    (h12 : 2 * |q2.toInt| ≤ |q1.toInt|) (h13 : 2 ^ 57 * |q3.toInt| ≤ |q1.toInt|)
+    (hov : 4 * |q1.toInt| ≤ (maxFin : Int)) :
+    (arithmetic.renorm3 q1 q2 q3).IsV (rnI (q1.toInt + q2.toInt))
+      (q1.toInt + q2.toInt - rnI (q1.toInt + q2.toInt)) := by
+  rw [renorm3_eq']
+  have a0 := abs_nonneg q1.toInt
+  have b0 := abs_nonneg q2.toInt
+  have c0 := abs_nonneg q3.toInt
+  have hsum : |q1.toInt + q2.toInt| ≤ |q1.toInt| + |q2.toInt| := abs_add_le _ _
+  have hsum' : |q1.toInt| ≤ |q1.toInt + q2.toInt| + |q2.toInt| := by
+    have := abs_add_le (q1.toInt + q2.toInt) (-q2.toInt)
+    rwa [abs_neg, add_neg_cancel_right] at this
+  have hrel := rel_err_rnI (q1.toInt + q2.toInt)
+  have hh1 : |rnI (q1.toInt + q2.toInt)| ≤ |q1.toInt + q2.toInt| + |rnI (q1.toInt + q2.toInt) - (q1.toInt + q2.toInt)| := by
+    have := abs_add_le (q1.toInt + q2.toInt) (rnI (q1.toInt + q2.toInt) - (q1.toInt + q2.toInt))
+    rwa [add_sub_cancel] at this
+  have hh2 : |q1.toInt + q2.toInt| ≤ |rnI (q1.toInt + q2.toInt)| + |rnI (q1.toInt + q2.toInt) - (q1.toInt + q2.toInt)| := by
+    have := abs_add_le (rnI (q1.toInt + q2.toInt)) (-(rnI (q1.toInt + q2.toInt) - (q1.toInt + q2.toInt)))
+    rw [abs_neg] at this
+    have e : rnI (q1.toInt + q2.toInt) + -(rnI (q1.toInt + q2.toInt) - (q1.toInt + q2.toInt)) = q1.toInt + q2.toInt := by
+      ring
+    rwa [e] at this
+  have hov1 : rn53 (q1.toInt + q2.toInt).natAbs ≤ maxFin := rn53_natAbs_le_maxFin (by omega)
+  obtain ⟨uh, ul⟩ := fast_two_sum_words f1 f2 w1 w2 (by omega) hov1
+  have wu := fast_two_sum_WF q1 q2
+  have hrep : RepI (rnI (q1.toInt + q2.toInt)) := repI_rnI _
+  generalize hH : rnI (q1.toInt + q2.toInt) = H at *
+  have hsmall : 2 ^ 55 * |q3.toInt| ≤ |H| := by omega
+  have hsmall' : 2 ^ 55 * |-q3.toInt| ≤ |H| := by rwa [abs_neg]
+  have v3 := IsVal.of_finite f3
+  -- `s = RN(c + u.hi) = u.hi`
+  have hs : IsVal (F64.add q3 (arithmetic.fast_two_sum q1 q2).hi) H := by
+    have := v3.add uh (by have := abs_add_le q3.toInt H; omega)
+    rwa [add_comm, rnI_add_small hrep hsmall] at this
+  -- `z = RN(s - c) = u.hi`
+  have hz : IsVal (F64.sub (F64.add q3 (arithmetic.fast_two_sum q1 q2).hi) q3) H := by
+    have := hs.sub v3 (by have := abs_add_le H (-q3.toInt); rw [abs_neg, ← Int.sub_eq_add_neg] at this; omega)
+    rwa [Int.sub_eq_add_neg, rnI_add_small hrep hsmall'] at this
+  -- `v.lo = u.hi - z = 0`
+  have hvl : IsVal (F64.sub (arithmetic.fast_two_sum q1 q2).hi
+      (F64.sub (F64.add q3 (arithmetic.fast_two_sum q1 q2).hi) q3)) 0 := by
+    have := uh.sub_exact hz (by rw [sub_self]; exact repI_zero) (by rw [sub_self]; exact abs_zero_le_maxFin)
+    rwa [sub_self] at this
+  have hrl : RepI (q1.toInt + q2.toInt - H) := ul.repI wu.2
+  have hw : IsVal (F64.add (arithmetic.fast_two_sum q1 q2).lo
+      (arithmetic.fast_two_sum q3 (arithmetic.fast_two_sum q1 q2).hi).lo) (q1.toInt + q2.toInt - H) := by
+    have := ul.add_exact hvl (by rw [add_zero]; exact hrl) (by rw [add_zero]; exact ul.abs_le wu.2)
+    rwa [add_zero] at this
+  exact f2s_isV_fixed hs hw (fast_two_sum_WF _ _).1 (add_WF _ _) (by rw [add_sub_cancel, hH])
+
+/-! ## 4. `TwoFloat * f64` (DWTimesFP3): value with a crude error bound, all magnitudes below overflow -/
+
+/-- error analysis of DWTimesFP3 on scaled integers: `N = yh·q`, `Lq = yl·q`, `ch = RN(N/U)`, `cl1 = RN((N - ch U)/U)`,
+`cl3 = RN((Lq + cl1 U)/U)`; each rounding has relative error `2^-53` plus absolute error `1/2` (underflow) -/
+theorem mul_err_int {N Lq ch cl1 cl3 U : Int} (hU : 0 < U) (h0 : 2 ^ 53 * |Lq| ≤ |N|)
+    (h1 : 2 ^ 53 * |ch * U - N| ≤ 2 ^ 52 * U + |N|)
+    (h2 : 2 ^ 53 * |cl1 * U - (N + -ch * U)| ≤ 2 ^ 52 * U + |N + -ch * U|)
+    (h3 : 2 ^ 53 * |cl3 * U - (Lq + cl1 * U)| ≤ 2 ^ 52 * U + |Lq + cl1 * U|) :
+    2 ^ 103 * |(ch + cl3) * U - (N + Lq)| ≤ 2 ^ 104 * U + |N| ∧
+    2 ^ 52 * |N + -ch * U| ≤ 2 ^ 52 * U + |N| ∧
+    2 ^ 50 * |Lq + cl1 * U| ≤ 2 ^ 51 * U + |N| := by
+  have n0 := abs_nonneg N
+  have ed : |N + -ch * U| = |ch * U - N| := by
+    rw [← abs_neg]; congr 1; ring
+  rw [ed] at h2 ⊢
+  have tM : |Lq + cl1 * U| ≤ |Lq| + |cl1 * U - (N + -ch * U)| + |ch * U - N| := by
+    have e : Lq + cl1 * U = Lq + (cl1 * U - (N + -ch * U)) + -(ch * U - N) := by ring
+    rw [e]
+    refine le_trans (abs_add_le _ _) ?_
+    rw [abs_neg]
+    exact add_le_add_left (abs_add_le _ _) _
+  have tG : |(ch + cl3) * U - (N + Lq)| ≤ |cl1 * U - (N + -ch * U)| + |cl3 * U - (Lq + cl1 * U)| := by
+    have e : (ch + cl3) * U - (N + Lq) = (cl1 * U - (N + -ch * U)) + (cl3 * U - (Lq + cl1 * U)) := by ring
+    rw [e]; exact abs_add_le _ _
+  generalize |ch * U - N| = d1 at *
+  generalize |cl1 * U - (N + -ch * U)| = e1 at *
+  generalize |cl3 * U - (Lq + cl1 * U)| = e3 at *
+  generalize |Lq + cl1 * U| = m3 at *
+  generalize |(ch + cl3) * U - (N + Lq)| = g at *
+  generalize |Lq| = lq at *
+  generalize |N| = n at *
+  refine ⟨?_, ?_, ?_⟩ <;> omega
+
+theorem rqI_abs_le {p : Int} {U : Nat} (k : Nat) (hU : 0 < U) (h : |p| ≤ 2 ^ k * (U : Int)) :
+    |rqI p U| ≤ 2 ^ k := by
+  rw [← Int.natCast_natAbs, natAbs_rqI]
+  have h' : p.natAbs ≤ 2 ^ k * U := by
+    have : ((p.natAbs : Nat) : Int) ≤ ((2 ^ k * U : Nat) : Int) := by
+      rw [Int.natCast_natAbs]; push_cast; exact h
+    exact_mod_cast this
+  have := roundQ_le_of_le hU (rep_two_pow k) h'
+  exact_mod_cast this
+
+theorem roundQ_le_maxFin_of_abs_le {p : Int} {U : Nat} (k : Nat) (hk : k ≤ 2097) (hU : 0 < U)
+    (h : |p| ≤ 2 ^ k * (U : Int)) : roundQ p.natAbs U ≤ maxFin := by
+  have h1 := rqI_abs_le k hU h
+  rw [← Int.natCast_natAbs, natAbs_rqI] at h1
+  have h2 : roundQ p.natAbs U ≤ 2 ^ k := by exact_mod_cast h1
+  exact le_trans h2 (le_trans (Nat.pow_le_pow_right (by decide) hk) two_pow_2097_le_maxFin)
+
+theorem unit_pos_int : (0 : Int) < (unit : Int) := Int.natCast_pos.2 unit_pos
+
+/-- `2^53 |l·q| ≤ |x·q|` for a low word `l` below half an ulp of `x` -/
+theorem lo_mul_le {x l q : Int} (hl : 2 * |l| ≤ 2 ^ (Nat.log2 x.natAbs - 52)) :
+    2 ^ 53 * |l * q| ≤ |x * q| := by
+  have h := two_pow_mul_le_of_half_ulp hl
+  have h' : (2 : Int) ^ 53 * |l| ≤ |x| := by
+    rw [← Int.natCast_natAbs, ← Int.natCast_natAbs]; exact_mod_cast h
+  rw [abs_mul, abs_mul, ← mul_assoc]
+  exact mul_le_mul_of_nonneg_right h' (abs_nonneg q)
+
+/-- **`TwoFloat * f64`, value level.**  For a valid `y` and a finite `q` with `|y.hi · q| ≤ 2^1018` (no overflow) —
+underflow of any of the three roundings allowed — the product is a valid pair whose value `P` satisfies
+`|P − (y.hi + y.lo)·q| ≤ 2^-103 |y.hi·q| + 2·2^-1074`. -/
+theorem mul_tf_val {y : TwoFloat} {q : F64} (hy : y.Valid) (hq : q.is_finite = true)
+    (hN : |y.hi.toInt * q.toInt| ≤ 2 ^ 2092 * (unit : Int)) :
+    (arithmetic.impl_Mul_rf64_for_rTwoFloat.mul y q).Valid ∧
+    2 ^ 103 * |(arithmetic.impl_Mul_rf64_for_rTwoFloat.mul y q).V * (unit : Int)
+        - (y.hi.toInt * q.toInt + y.lo.toInt * q.toInt)|
+      ≤ 2 ^ 104 * (unit : Int) + |y.hi.toInt * q.toInt| := by
+  rw [mul_tf_eq, new_mul_eq]
+  simp only
+  have hU := unit_pos
+  have hUi := unit_pos_int
+  have h0 := lo_mul_le (q := q.toInt) hy.two_mul_abs_lo_le
+  have n0 := abs_nonneg (y.hi.toInt * q.toInt)
+  -- ch
+  obtain ⟨fch, vch⟩ := mul_spec hy.1 hq (roundQ_le_maxFin_of_abs_le 2092 (by norm_num) hU hN)
+  have h1 := rqI_err_gen (y.hi.toInt * q.toInt) hU
+  rw [← vch] at h1
+  -- cl1
+  have fn : (F64.neg (F64.mul y.hi q)).is_finite = true := by rw [is_finite_neg]; exact fch
+  have ed : |y.hi.toInt * q.toInt + -(F64.mul y.hi q).toInt * (unit : Int)|
+      = |(F64.mul y.hi q).toInt * (unit : Int) - y.hi.toInt * q.toInt| := by
+    rw [← abs_neg]; congr 1; ring
+  have b1 : |y.hi.toInt * q.toInt + (F64.neg (F64.mul y.hi q)).toInt * (unit : Int)|
+      ≤ 2 ^ 2093 * (unit : Int) := by
+    rw [toInt_neg, ed]; omega
+  obtain ⟨f1, v1⟩ := fma_spec hy.1 hq fn (roundQ_le_maxFin_of_abs_le 2093 (by norm_num) hU b1)
+  have h2 := rqI_err_gen (y.hi.toInt * q.toInt + (F64.neg (F64.mul y.hi q)).toInt * (unit : Int)) hU
+  rw [← v1, toInt_neg] at h2
+  -- cl3
+  have b3 : |y.lo.toInt * q.toInt + (F64.fma y.hi q (F64.neg (F64.mul y.hi q))).toInt * (unit : Int)|
+      ≤ 2 ^ 2095 * (unit : Int) := by
+    have t1 := abs_add_le (y.lo.toInt * q.toInt)
+      ((F64.fma y.hi q (F64.neg (F64.mul y.hi q))).toInt * (unit : Int))
+    have t2 : |(F64.fma y.hi q (F64.neg (F64.mul y.hi q))).toInt * (unit : Int)|
+        ≤ |(F64.fma y.hi q (F64.neg (F64.mul y.hi q))).toInt * (unit : Int)
+            - (y.hi.toInt * q.toInt + -(F64.mul y.hi q).toInt * (unit : Int))|
+          + |y.hi.toInt * q.toInt + -(F64.mul y.hi q).toInt * (unit : Int)| := by
+      have := abs_add_le ((F64.fma y.hi q (F64.neg (F64.mul y.hi q))).toInt * (unit : Int)
+            - (y.hi.toInt * q.toInt + -(F64.mul y.hi q).toInt * (unit : Int)))
+          (y.hi.toInt * q.toInt + -(F64.mul y.hi q).toInt * (unit : Int))
+      rwa [sub_add_cancel] at this
+    rw [toInt_neg] at b1
+    have l0 := abs_nonneg (y.lo.toInt * q.toInt)
+    omega
+  obtain ⟨f3, v3⟩ := fma_spec hy.2.1 hq f1 (roundQ_le_maxFin_of_abs_le 2095 (by norm_num) hU b3)
+  have h3 := rqI_err_gen (y.lo.toInt * q.toInt
+    + (F64.fma y.hi q (F64.neg (F64.mul y.hi q))).toInt * (unit : Int)) hU
+  rw [← v3] at h3
+  obtain ⟨E1, E2, E3⟩ := mul_err_int hUi h0 h1 h2 h3
+  -- the Fast2Sum precondition (as in `dw_mul_core_inv`)
+  have hXY : (y.hi.toInt * q.toInt).natAbs = y.hi.toInt.natAbs * q.toInt.natAbs := Int.natAbs_mul _ _
+  have aC : (F64.mul y.hi q).toInt.natAbs = roundQ (y.hi.toInt.natAbs * q.toInt.natAbs) unit := by
+    rw [vch, natAbs_rqI, hXY]
+  have v1' := v1
+  rw [toInt_neg, vch] at v1'
+  have aC1 : (F64.fma y.hi q (F64.neg (F64.mul y.hi q))).toInt.natAbs
+      = roundQ (y.hi.toInt * q.toInt + -rqI (y.hi.toInt * q.toInt) unit * (unit : Int)).natAbs unit := by
+    rw [v1', natAbs_rqI]
+  have aC3 : (F64.fma y.lo q (F64.fma y.hi q (F64.neg (F64.mul y.hi q)))).toInt.natAbs
+      = roundQ (y.lo.toInt * q.toInt
+          + (F64.fma y.hi q (F64.neg (F64.mul y.hi q))).toInt * (unit : Int)).natAbs unit := by
+    rw [v3, natAbs_rqI]
+  have hD : 2 * (y.hi.toInt * q.toInt + -rqI (y.hi.toInt * q.toInt) unit * (unit : Int)).natAbs
+      ≤ unit * 2 ^ (Nat.log2 (y.hi.toInt.natAbs * q.toInt.natAbs / unit) - 52) := by
+    have h := roundQ_abs_err (y.hi.toInt * q.toInt).natAbs unit unit_pos
+    rw [← natAbs_sub_rqI_mul, hXY] at h
+    exact_mod_cast h
+  have hN3 : (y.lo.toInt * q.toInt
+        + (F64.fma y.hi q (F64.neg (F64.mul y.hi q))).toInt * (unit : Int)).natAbs
+      ≤ y.lo.toInt.natAbs * q.toInt.natAbs +
+        roundQ (y.hi.toInt * q.toInt + -rqI (y.hi.toInt * q.toInt) unit * (unit : Int)).natAbs unit * unit := by
+    refine le_trans (Int.natAbs_add_le _ _) ?_
+    rw [Int.natAbs_mul, Int.natAbs_mul, Int.natAbs_natCast, aC1]
+  have key := dwtimesfp_nat unit_pos (two_pow_mul_le_of_half_ulp hy.two_mul_abs_lo_le) hD hN3
+  rw [← aC, ← aC3] at key
+  have hsumle : |(F64.mul y.hi q).toInt + (F64.fma y.lo q (F64.fma y.hi q (F64.neg (F64.mul y.hi q)))).toInt|
+      ≤ (maxFin : Int) := by
+    have hc : |(F64.mul y.hi q).toInt| ≤ 2 ^ 2092 := by
+      rw [vch]; exact rqI_abs_le 2092 hU hN
+    have hc3 : |(F64.fma y.lo q (F64.fma y.hi q (F64.neg (F64.mul y.hi q)))).toInt| ≤ 2 ^ 2095 := by
+      rw [v3]; exact rqI_abs_le 2095 hU b3
+    have hm : ((2 ^ 2097 : Nat) : Int) ≤ (maxFin : Int) := Int.ofNat_le.2 two_pow_2097_le_maxFin
+    push_cast at hm
+    have := abs_add_le (F64.mul y.hi q).toInt
+      (F64.fma y.lo q (F64.fma y.hi q (F64.neg (F64.mul y.hi q)))).toInt
+    omega
+  have hov := rn53_natAbs_le_maxFin hsumle
+  have hV : (arithmetic.fast_two_sum (F64.mul y.hi q)
+        (F64.fma y.lo q (F64.fma y.hi q (F64.neg (F64.mul y.hi q))))).V
+      = (F64.mul y.hi q).toInt + (F64.fma y.lo q (F64.fma y.hi q (F64.neg (F64.mul y.hi q)))).toInt ∧
+      (arithmetic.fast_two_sum (F64.mul y.hi q)
+        (F64.fma y.lo q (F64.fma y.hi q (F64.neg (F64.mul y.hi q))))).Valid := by
+    rcases key with k0 | kle
+    · have z : (F64.mul y.hi q).toInt = 0 := Int.natAbs_eq_zero.1 k0
+      have := fast_two_sum_zero_left fch f3 (mul_WF _ _) (fma_WF _ _ _) z
+      exact ⟨by rw [this.2.1, z, zero_add], this.2.2.1⟩
+    · have hle : |(F64.fma y.lo q (F64.fma y.hi q (F64.neg (F64.mul y.hi q)))).toInt|
+          ≤ |(F64.mul y.hi q).toInt| := by
+        rw [← Int.natCast_natAbs, ← Int.natCast_natAbs]; exact_mod_cast kle
+      have := fast_two_sum_spec fch f3 (mul_WF _ _) (fma_WF _ _ _) hle hov
+      exact ⟨this.2.1, this.2.2.1⟩
+  refine ⟨hV.2, ?_⟩
+  rw [hV.1]
+  exact E1
+
 end F64
